@@ -215,7 +215,16 @@ fn layer_builds_one_shared_semaphore() {
     let n: usize = kani::any();
     kani::assume(n >= 1 && n <= 100_000);
     let wait = any_millis(60_000);
-    let layer = crate::layer::BulkheadLayer::builder().max_concurrent_calls(n).max_wait_duration(wait).build();
+    // the setters are last-writer-wins: an earlier reject_when_full() (also the one inside the
+    // small() preset) does not survive a later max_wait_duration(), and vice versa
+    let order: u8 = kani::any();
+    kani::assume(order < 4);
+    let (layer, wait) = match order {
+        0 => (crate::layer::BulkheadLayer::builder().max_concurrent_calls(n).max_wait_duration(wait).build(), wait),
+        1 => (crate::layer::BulkheadLayer::builder().reject_when_full().max_concurrent_calls(n).max_wait_duration(wait).build(), wait),
+        2 => (crate::layer::BulkheadLayer::small().max_wait_duration(wait).max_concurrent_calls(n).build(), wait),
+        _ => (crate::layer::BulkheadLayer::builder().max_concurrent_calls(n).max_wait_duration(wait).reject_when_full().build(), Duration::ZERO),
+    };
     assert!(st().sem_created == 0, "[C01.no_semaphore_before_layer] building the layer value creates no bulkhead yet");
     let mut script = svc::any_script();
     script.never = false;
